@@ -256,6 +256,15 @@ def expr_tokens(e, ctx=0):
                 toks.append(Tok(","))
             toks += expr_tokens(x, 0)
         return toks + [Tok(")")]
+    if k == "callx":       # a call whose callee is not a name: `f()(1)`, `a[0](2)`
+        o = e["o"]
+        recv = ([Tok("(")] + expr_tokens(o, 0) + [Tok(")")]) if o["k"] in ("num", "bin", "un") else expr_tokens(o, POSTFIX)
+        toks = recv + [Tok("(")]
+        for i, x in enumerate(seq(e["as"])):
+            if i:
+                toks.append(Tok(","))
+            toks += expr_tokens(x, 0)
+        return toks + [Tok(")")]
     if k == "member":      # `o.m` without a call (only dynamically typed receivers pass the resolver)
         o = e["o"]
         recv = ([Tok("(")] + expr_tokens(o, 0) + [Tok(")")]) if o["k"] == "num" else expr_tokens(o, POSTFIX)
